@@ -221,8 +221,157 @@ def gen_binfmt():
         raise ExtractError('default font: size')
     d('defaultFontHeight', height)
     out.append(lean_list('defaultFontData', list(glyphs)))
+    # --- repairs the model follows (the translator fails when one of them disappears)
+    m = re.search(r'let sauce_width = sauce_opt\.as_ref\(\)\.map_or\(0, \|sauce\| sauce\.buffer_size\.width\);\s*'
+                  r'result\.set_sauce\(sauce_opt, true\);\s*if sauce_width > (\d+) \{\s*result\.set_width\(sauce_width\);\s*'
+                  r'result\.layers\[0\]\.set_width\(sauce_width\);\s*\}', t)
+    if not m:
+        raise ExtractError('tundra: loader no longer takes SAUCE widths above the set_sauce limit')
+    d('tndWideAbove', int(m.group(1)))
+    if not re.search(r'if pos\.y > u16::MAX as i32 \{[^}]*return Err\(LoadingError::OutOfBounds\.into\(\)\);', i):
+        raise ExtractError('ice_draw: row limit of the loader')
+    d('idfMaxY', 65535)
+    x = src('src/formats/xbinary.rs')
+    if not re.search(r'if extended_char_mode && !has_custom_font \{\s*return Err\(', x):
+        raise ExtractError('xbinary: loader no longer rejects 512 character mode without a font block')
+    if not re.search(r'if data\.len\(\) < o \+ XBIN_PALETTE_LENGTH \{\s*return Err\(LoadingError::FileTooShort', x) or \
+            not re.search(r'if data\.len\(\) < o \+ font_length \* if extended_char_mode \{ 2 \} else \{ 1 \} \{\s*return Err\(LoadingError::FileTooShort', x):
+        raise ExtractError('xbinary: palette / font block length checks')
+    bn = src('src/formats/bin.rs')
+    if not re.search(r'fn to_bytes\(&self, buf: &crate::Buffer, options: &SaveOptions\) -> EngineResult<Vec<u8>> \{\s*if buf\.get_width\(\) % 2 != 0 \{\s*return Err\(', bn):
+        raise ExtractError('bin: writer no longer refuses odd widths')
+    if len(re.findall(r'return Err\(LoadingError::FileTooShort\.into\(\)\);', t)) != 5:
+        raise ExtractError('tundra: the five end-of-file checks of the loader')
+
+    # --- the writers see the buffer only through Buffer::get_char (the compositor): none of them reads a layer
+    for fname in ['xbinary', 'bin', 'artworx', 'ice_draw', 'tundra']:
+        fs_ = src(f'src/formats/{fname}.rs')
+        mw = re.search(r'fn to_bytes\(&self, buf: &crate::Buffer, options: &SaveOptions\) -> EngineResult<Vec<u8>> \{(.*?)\n    fn load_buffer', fs_, re.S)
+        if not mw:
+            raise ExtractError(f'{fname}: to_bytes not found')
+        body = mw.group(1)
+        if fname == 'xbinary':
+            mc = re.search(r'\nfn compress_backtrack\(.*?\n\}\n', fs_, re.S)
+            mc2 = re.search(r'\nfn count_length\(.*?\n\}\n', fs_, re.S)
+            me = re.search(r'\nfn encode_attr\(.*?\n\}\n', fs_, re.S)
+            if not (mc and mc2 and me):
+                raise ExtractError('xbinary: compressor functions not found')
+            body += mc.group(0) + mc2.group(0) + me.group(0)
+        if re.search(r'\blayers\b', body):
+            raise ExtractError(f'{fname}: the writer reads a layer directly (the model saves Buffer::get_char of the whole stack)')
+        if 'get_char(' not in body:
+            raise ExtractError(f'{fname}: the writer no longer reads cells through get_char')
+    bsrc = src('src/buffers.rs')
+    ma = re.search(r'pub fn analyze_font_usage\(buf: &Buffer\) -> Vec<usize> \{(.*?)\n\}', bsrc, re.S)
+    mws = re.search(r'pub fn write_sauce_info\(.*?\n    \}\n', s, re.S)
+    if not ma or re.search(r'\blayers\b', ma.group(1)) or 'buf.get_char(' not in ma.group(1) or not mws or re.search(r'\blayers\b', mws.group(0)):
+        raise ExtractError('analyze_font_usage / write_sauce_info: read a layer directly')
+    d('writersReadGetCharOnly', 1)
+
+    # --- font names: guess_font_name (checksum table of the built-in fonts, in search order) and BitFont::from_sauce_name
+    fm = _sibling('fonts')
+    cm = _sibling('codec')
+    _, cp437 = cm.char_table('src/parsers/ascii/mod.rs', 'CP437_TO_UNICODE', 256)
+
+    def sauce_bytes(text):
+        # SauceString::from: first index of CP437_TO_UNICODE holding the character, '?' if there is none (no length cut here)
+        o = []
+        for ch in text:
+            c = ord(ch)
+            o.append(cp437.index(c) if c in cp437 else ord('?'))
+        return o
+
+    crc_src = src('src/crc.rs')
+    m = re.search(r'CRC32_TABLE: \[\[u32; 256\]; 16\] = \[(.*?)\n\];', crc_src, re.S)
+    if not m or 'pub fn update_crc32(crc: u32, b: u8) -> u32 {\n    (crc >> 8) ^ CRC32_TABLE[0][(b ^ crc as u8) as usize]\n}' not in crc_src:
+        raise ExtractError('crc.rs: CRC32_TABLE / update_crc32 shape')
+    row0 = [int(v.replace('_', ''), 16) for v in re.findall(r'0x[0-9A-Fa-f_]+', m.group(1))][:256]
+    if len(row0) != 256:
+        raise ExtractError('crc.rs: first table row')
+    out.append(lean_list('crcRow0', row0))
+    if not re.search(r'pub fn calculate_checksum\(&mut self\) \{\s*let mut crc = 0;\s*for ch in 0\.\.self\.length \{\s*if let Some\(glyph\) = '
+                     r'char::from_u32\(ch as u32\)\.and_then\(\|ch\| self\.get_glyph\(ch\)\) \{\s*for b in &glyph\.data \{\s*crc = update_crc32\(crc, \*b\);', f):
+        raise ExtractError('fonts.rs: calculate_checksum shape')
+
+    def checksum(gl):
+        crc = 0
+        for rows in gl:
+            for b in rows:
+                crc = (crc >> 8) ^ row0[(b ^ crc) & 0xFF]
+        return crc
+
+    mm = re.search(r'\nfonts!\[(.*?)\n\];', f, re.S)
+    ms = re.search(r'\nsauce_fonts!\[(.*?)\n\];', f, re.S)
+    mg = re.search(r'pub fn guess_font_name\(font: &BitFont\) -> String \{\s*for i in 0\.\.ANSI_FONTS \{\s*if let Ok\(ansi_font\) = BitFont::from_ansi_font_page\(i\) \{\s*'
+                   r'if ansi_font\.get_checksum\(\) == font\.get_checksum\(\) \{\s*return ansi_font\.name\.clone\(\);\s*\}\s*\}\s*\}\s*'
+                   r'for name in SAUCE_FONT_NAMES \{\s*if let Ok\(sauce_font\) = BitFont::from_sauce_name\(name\) \{\s*'
+                   r'if sauce_font\.get_checksum\(\) == font\.get_checksum\(\) \{\s*return sauce_font\.name\.clone\(\);\s*\}\s*\}\s*\}\s*'
+                   r'fl!\(crate::LANGUAGE_LOADER, "unknown-font-name", width = font\.size\.width, height = font\.size\.height\)', src('src/formats/mod.rs'))
+    mn = re.search(r'pub const ANSI_FONTS: usize = (\d+);', f)
+    if not (mm and ms and mg and mn):
+        raise ExtractError('fonts.rs / formats/mod.rs: font tables or guess_font_name shape')
+    default_name = re.search(r'const DEFAULT_FONT_NAME: &str = "([^"]+)";', f).group(1)
+    ansi = {}
+    for e in re.finditer(r'\(\s*([A-Z0-9_]+),\s*"([^"]+)",\s*(DEFAULT_FONT_NAME|"[^"]*"),\s*(\d+),\s*(\d+)\s*,\s*(\d+)\s*\)', mm.group(1)):
+        nm = default_name if e.group(3) == 'DEFAULT_FONT_NAME' else e.group(3)[1:-1]
+        ansi[int(e.group(6))] = (e.group(2), nm)
+    n_ansi = int(mn.group(1))
+    cache = {}
+
+    def load(file):
+        if file not in cache:
+            with open(os.path.join(REPO, 'data/fonts', file), 'rb') as fh:
+                cache[file] = fm.parse_font(fh.read())
+        return cache[file]
+
+    table = []
+    for slot in range(n_ansi):
+        if slot not in ansi:
+            continue          # from_ansi_font_page(slot) is Err: skipped by guess_font_name
+        file, nm = ansi[slot]
+        w, h, gl = load(file)
+        table.append((checksum(gl), sauce_bytes(nm)))
+    sauce = [(e.group(2), e.group(3)) for e in re.finditer(r'\(\s*([A-Z0-9_]+),\s*"([^"]+)",\s*"([^"]*)",', ms.group(1))]
+    if len(re.findall(r'\(\s*[A-Z0-9_]+,', ms.group(1))) != len(sauce) or not sauce:
+        raise ExtractError('sauce_fonts![] entries not parsed')
+    fonts_out = [HEADER, 'namespace IcyVerif.Gen.BinFonts\n']
+    names, heights, datas = [], [], []
+    for k, (file, nm) in enumerate(sauce):
+        w, h, gl = load(file)
+        if w != 8 or len(gl) != 256 or any(len(r) != h for r in gl):
+            raise ExtractError(f'SAUCE font {nm}: not 256 glyphs of 8 x {h}')
+        table.append((checksum(gl), sauce_bytes(nm)))
+        names.append(sauce_bytes(nm))
+        heights.append(h)
+        fonts_out.append(lean_list(f'sauceFontData{k}', [b for r in gl for b in r]))
+        datas.append(f'sauceFontData{k}')
+    out.append('/-- `guess_font_name`: (checksum, name as SAUCE bytes) of the built-in fonts in the order they are tried -/\n')
+    out.append('def fontCrcNames : List (Nat × List Nat) := [' + ', '.join(f'({c}, {n})' for c, n in table) + ']\n')
+    ftl = open(os.path.join(REPO, 'i18n/en/icy_engine.ftl'), encoding='utf-8').read()
+    mu = re.search(r'^unknown-font-name=(.*?)\{ \$width \}(.*?)\{ \$height \}(.*)$', ftl, re.M)
+    if not mu:
+        raise ExtractError('i18n: unknown-font-name')
+    # fluent wraps every placeable in U+2068 / U+2069 (isolating marks): not CP437, so '?' in a SAUCE string
+    out.append(lean_list('unknownFontPre', sauce_bytes(mu.group(1) + '\u2068')))
+    out.append(lean_list('unknownFontMid', sauce_bytes('\u2069' + mu.group(2) + '\u2068')))
+    out.append(lean_list('unknownFontPost', sauce_bytes('\u2069' + mu.group(3))))
+    fonts_out.append('/-- `SAUCE_FONT_NAMES[i]` as bytes, height, `convert_to_u8_data()` of `BitFont::from_sauce_name` -/\n')
+    fonts_out.append('def sauceFonts : List (List Nat × Nat × List Nat) := [' +
+                     ', '.join(f'({n}, {h}, {dn})' for n, h, dn in zip(names, heights, datas)) + ']\n')
+    fonts_out.append('end IcyVerif.Gen.BinFonts\n')
     out.append('end IcyVerif.Gen.BinFmt\n')
-    return 'BinFmt.lean', ''.join(out)
+    # Model/BinFormats.lean builds on the SAUCE model of C11: its generated constants are regenerated with these
+    sauce_gen = _sibling('sauce').gen_sauce()
+    return [('BinFmt.lean', ''.join(out)), ('BinFonts.lean', ''.join(fonts_out)), sauce_gen]
+
+
+def _sibling(name):
+    import importlib.util
+    p = os.path.join(os.path.dirname(os.path.abspath(__file__)), name + '.py')
+    spec = importlib.util.spec_from_file_location('gens_' + name + '_via_binfmt', p)
+    m = importlib.util.module_from_spec(spec)
+    spec.loader.exec_module(m)
+    return m
 
 
 GENERATORS = {'binfmt': gen_binfmt}
